@@ -16,10 +16,16 @@ PARTIAL = ('proved (Properties/C10.v, all closed under the global context): C10_
            'every bond profile, over Cx F for an arbitrary ordered field F: the returned state is normalised, the last reported energy equals <psi|H|psi> of '
            'the returned state, the reported energies are non-increasing, none exceeds the energy of the normalised start state, each is >= lam for every lam '
            'with H >= lam; relative to the contracts of the oracle calls the run issues, read off the emitted trace (block QR: LAPACK contract; local eigensolver: '
-           'Ritz contract |A\'| = 1, theta = <A\'|H_eff A\'>, theta <A|A> <= <A|H_eff A>; orthonormalize returns right-isometric tensors). Also the per-local-problem '
-           'versions, which energy a sweep records, the call schedules of both algorithms. NOT proved: two-site DMRG along a whole run (per local problem only; '
-           'the SVD-split contract and its induction are not mechanised), reaching the exact ground energy on a complete manifold (spectral theory), that '
-           'floating-point Lanczos meets the Ritz contract (measured), rounding (measured by prop()); H is an argument no model function returns or updates')
+           'Ritz contract |A\'| = 1, theta = <A\'|H_eff A\'>, theta <A|A> <= <A|H_eff A>; orthonormalize returns right-isometric tensors). C10_dmrg2_whole_run -- the '
+           'same five conclusions for two-site DMRG with zero split tolerance, every L >= 2, every number of sweeps and every bond profile, relative to the contracts '
+           'of the calls the run issues (Ritz contract for the merged two-site problem; every split_mps_tensor call is exact: the minimiser factors entrywise through '
+           'the two answers and the factor that did not receive the singular values is an isometry -- \'right\': A[i] left-isometric, \'left\': A[i+1] right-isometric; '
+           'LAPACK contract for the final QR of each sweep); induction over the two-site schedule with the two-site mixed-canonical invariant. Also the per-local-problem '
+           'versions, which energy a sweep records, the call schedules of both algorithms; non-vacuity of both whole-run theorems on rational instances (L = 2 single-site, '
+           'L = 3 two-site with an exact rational split oracle). NOT proved: reaching the exact ground energy on a complete manifold (spectral theory), splits with tol > 0, that '
+           'floating-point Lanczos meets the Ritz contract (measured), that the floating-point SVD split meets the exact-split contract (at tol = 0 this is what '
+           'C03_merge_split_id and C12_block_svd_spec prove of the split model in exact arithmetic; here only its consequences are measured), rounding (measured by prop()); '
+           'H is an argument no model function returns or updates')
 ASSUMPTIONS = SR.ASSUMPTIONS
 RULE = ('Hermitian MPOs (XXZ, Ising, Bose-Hubbard, Fermi-Hubbard, random Hermitian with/without charges), L in 2..5, d >= 2, any bond profile, '
         '1..3 sweeps, 2..6 Lanczos iterations (complete-manifold cases: enough iterations), repeated invocations, real-valued and complex states (real states meet complex Hermitian MPOs); two-site with zero split tolerance; '
